@@ -121,7 +121,7 @@ def run(seed, tier, lean) -> Result:
                       'association classes) x {json, yml, yaml}; real save -> file -> real load compared on every preserved attribute, '
                       're-saved content, the same file with permuted asset order and type-only shorthand; the Lean document model compared '
                       'on the saved document and the loaded state; non-trivial = id gap or explicit id + a non-default defense + an association')
-    n = 200 if tier == 'quick' else 8000
+    n = 200 if tier == 'quick' else 1200
     import harness.mhist as mh
     cases = []
     for i in range(n):
